@@ -17,6 +17,7 @@ import (
 
 	"github.com/gordian-engine/gordian/gexchange"
 	"github.com/gordian-engine/gordian/internal/zzverif/vx"
+	"github.com/gordian-engine/gordian/tm/tmcodec"
 	"github.com/gordian-engine/gordian/tm/tmconsensus"
 	"github.com/gordian-engine/gordian/tm/tmp2p/tmlibp2p"
 	pubsub "github.com/libp2p/go-libp2p-pubsub"
@@ -218,6 +219,35 @@ func execA(t *testing.T, job vx.Job) (res vx.Result) {
 					res.Violate(prop, fmt.Sprintf("a:accept-without-handler-accept:input=%s:%s", in.Class, what),
 						fmt.Sprintf("validator of a real Connection returned ValidationAccept (=relay) for input %s from another peer; handler feedback configured=%d (%s); handler calls=%v",
 							in.Name, f, fbClass(fb), calls), 0)
+				}
+				if r == pubsub.ValidationAccept {
+					// "Accepted by the handler" means the handler accepted THIS message: it must have been shown the
+					// content of this very payload (a validator that keeps state between messages could show it another one).
+					// What this payload decodes to, by an independent decode with a fresh envelope.
+					wantKey := in.Key
+					if wantKey == "" {
+						var cm tmcodec.ConsensusMessage
+						if err := m.codec.UnmarshalConsensusMessage(in.Data, &cm); err == nil {
+							switch {
+							case cm.ProposedHeader != nil:
+								wantKey = mkey(kPH, cm.ProposedHeader.Header.Height)
+							case cm.PrevoteProof != nil:
+								wantKey = mkey(kPV, cm.PrevoteProof.Height)
+							case cm.PrecommitProof != nil:
+								wantKey = mkey(kPC, cm.PrecommitProof.Height)
+							}
+						}
+					}
+					sawThis := false
+					for _, c := range calls {
+						if c.Fb == gexchange.FeedbackAccepted && wantKey != "" && c.Key == wantKey {
+							sawThis = true
+						}
+					}
+					if !sawThis && acceptedByHandler {
+						res.Violate(prop, "a:accept-but-handler-was-shown-other-content:input="+in.Class,
+							fmt.Sprintf("validator returned ValidationAccept for input %s, but the handler call it relied on was for different content: calls=%v (this payload decodes to %q)", in.Name, calls, wantKey), 0)
+					}
 				}
 				if r == pubsub.ValidationAccept && !json.Valid(in.Data) {
 					res.Violate(prop, "a:accept-of-non-json:input="+in.Class,
